@@ -13,6 +13,34 @@ from .shared import (rule_loop_labels, rule_function_labels, fn_ctx, live_ids, g
 MARK = "LBL"
 
 
+def rule_nearest_function(repo, chk, R):
+    """'return' jumps to the end label of the function it stands in: get_function_parent walks the ancestors from the inside out and
+    stops at the FIRST FunctionDef.  A walk that goes on (keeps the last match) yields the outermost def: a return inside a nested def jumps
+    into the outer function's epilogue."""
+    u = repo.mod("utils")
+    fn = u.func("get_function_parent")
+    chk.saw("utils", "get_function_parent")
+    where = f"{u.path}:{fn.lineno} in get_function_parent"
+    key = "utils:get_function_parent:the walk over the ancestors stops at the first enclosing def"
+    loops = [lp for lp in ast.walk(fn) if isinstance(lp, (ast.For, ast.While))]
+    if len(loops) != 1:
+        chk.unresolved(R, key, f"expected one loop over the ancestors, found {len(loops)}", where)
+        return
+    lp = loops[0]
+    inner_first = isinstance(lp, ast.While) or ("node_ancestors" in norm(lp.iter) or ".parent" in norm(lp.iter)) and not norm(lp.iter).startswith(("reversed(", "sorted(")) \
+        and "[::-1]" not in norm(lp.iter)
+    hits = [i for i in ast.walk(lp) if isinstance(i, ast.If) and any(isinstance(c, ast.Call) and norm(c.func) == "isinstance" and "FunctionDef" in norm(c) for c in ast.walk(i.test))]
+    if not hits:
+        chk.unresolved(R, key, "no test for FunctionDef inside the loop", where)
+        return
+    def leaves(stmts):
+        return bool(stmts) and isinstance(stmts[-1], (ast.Return, ast.Break, ast.Raise))
+    stops = all(leaves(i.body) or (i.orelse and not leaves(i.body) and False) for i in hits)
+    chk.judge(R, key, stops and inner_first,
+              "after a FunctionDef has been found among the ancestors the walk goes on" if not stops else f"the ancestors are visited in the order of {norm(lp.iter)}, not from the inside out",
+              {"loop": norm(lp.iter) if isinstance(lp, ast.For) else norm(lp.test)}, where)
+
+
 def run(repo: Repo, chk: Check):
     chk.rule("R05.a", "the pattern with which remove_labels substitutes a label delimits whole operand tokens with respect to the "
                       "label alphabet of the repository's own label constructors (letters, digits, '_', '.'); the labelled mode "
@@ -33,6 +61,7 @@ def run(repo: Repo, chk: Check):
     chk.guarded(r05b, repo, chk)
     chk.guarded(rule_loop_labels, repo, chk, "R05.c")
     chk.guarded(rule_function_labels, repo, chk, "R05.d")
+    chk.guarded(rule_nearest_function, repo, chk, "R05.d")
     chk.guarded(r05e, repo, chk)
     chk.guarded(r05f, repo, chk)
     chk.rule("R05.j", "once remove_labels has turned labels into line numbers the listing keeps its line count: nothing inserts or removes a line afterwards, "
@@ -402,6 +431,11 @@ def r05f(repo, chk):
         t = st.targets[0]
         if isinstance(t, ast.Subscript) and isinstance(t.slice, ast.Name) and "label" in t.slice.id:
             map_stores.append(st)
+    if not map_stores:
+        # the key written as an expression (the line without its colon): the table is the one whose entries are read back with .items() / [..] for the substitution
+        read_back = {norm(c.func.value) for c in ast.walk(fn) if isinstance(c, ast.Call) and isinstance(c.func, ast.Attribute) and c.func.attr == "items"}
+        map_stores = [st for st in stores if isinstance(st.targets[0], ast.Subscript) and norm(st.targets[0].value) in read_back
+                      and (isinstance(st.value, ast.Name) or isinstance(st.value, ast.Call) and norm(st.value.func) == "len")]
     if len(map_stores) != 1:
         raise AnalysisError(f"remove_labels: expected one store label_map[label] = ..., found {len(map_stores)}")
     st = map_stores[0]
